@@ -112,6 +112,10 @@ def gen_method(rng, name, lib, kind=None, nparams=None, pool=None, negative=None
     params = []
     for i in range(nparams):
         params.append(gen_param(g, rng, tys, "unsupported" if (negative == "pattern" and i == nparams - 1) else None))
+    # `actor: Self | &Self | &mut Self` in first position of a method without receiver IS the documented static-style receiver (the method is a
+    # consuming / reference method then, C05 and C10 cover that form); this grammar keeps the parameter an ordinary one
+    if kind == "stat" and params and re.sub(r"^(ref\s+)?(mut\s+)?", "", params[0][0]).strip() == "actor" and params[0][1].replace(" ", "") in ("Self", "&Self", "&mutSelf"):
+        params[0] = (params[0][0], "u8", params[0][2])
     if negative == "pattern" and not params:
         params.append(gen_param(g, rng, tys, "unsupported"))
     if negative == "inter":
